@@ -85,31 +85,3 @@ fn c09_inner_apply() {
     assert!(rc4h::rc4_same(&c.inner, &r), "C09: InnerCrypto::apply leaves another state than RC4");
     kani::cover!(inner_pos(&c0) == 254, "counter wrap");
 }
-
-/// C09 (through the constructor only, no knowledge of the struct's fields): with RC4 abstracted as a
-/// position-indexed pad (`Rc4::new` gives an arbitrary 256-byte pad, `apply_keystream` XORs pad bytes at
-/// consecutive positions), `InnerCrypto::new` followed by calls of 250, 10 and 3 bytes must consume pad
-/// positions 1024.., each exactly once and in order — whatever buffering the implementation uses internally.
-/// Robust against changes of the struct layout.
-#[kani::proof]
-#[kani::unwind(1030)]
-#[kani::stub(crate::rc4::Rc4::new, rc4h::stub_new_any_pad)]
-#[kani::stub(crate::rc4::Rc4::apply_keystream, rc4h::pad_apply)]
-fn c09_inner_stream() {
-    let sk: [u8; 40] = kani::any();
-    let dir: [u8; 16] = kani::any();
-    let mut c = InnerCrypto::new(sk, &dir);
-    let data: [u8; 263] = kani::any();
-    let mut out = data;
-    c.apply(&mut out[..250]);
-    c.apply(&mut out[250..260]);
-    c.apply(&mut out[260..263]);
-    let pad = rc4h::last_pad();
-    let mut k = 0;
-    while k < 263 {
-        // keystream byte number 1024 + k sits at pad position (1024 + k + 1) mod 256
-        assert!(out[k] == data[k] ^ pad[(1024 + k + 1) % 256], "C09: stream byte is not data XOR keystream byte number 1024 + k");
-        k += 1;
-    }
-    kani::cover!(true, "three calls crossing byte 240 and 256");
-}
